@@ -358,7 +358,7 @@ func suiteRefactor(c *Ctx) error {
 				}
 			}
 			return s
-		}, nil}, base, sp.base, fams})
+		}, specialKinds(sp)}, base, sp.base, fams})
 	}
 	var mu sync.Mutex
 	parallel(len(jobs), 12, func(ji int) {
@@ -416,6 +416,20 @@ func suiteRefactor(c *Ctx) error {
 		}
 	})
 	return nil
+}
+
+// specialKinds: a special that renames a function which OTHER functions of the file call is judged on
+// the renamed functions only - a caller prints its callee's qualified name, so its fingerprint follows
+// the callee's name by design (C02 is about renaming the function itself, not what it calls)
+func specialKinds(sp refactorSpecial) map[string]string {
+	if sp.kind != "rename-recursive-function-called-by-an-earlier-one" {
+		return nil
+	}
+	kinds := map[string]string{}
+	for from := range sp.rename {
+		kinds[from] = "special:" + sp.kind
+	}
+	return kinds
 }
 
 // ---------------------------------------------------------------- C03 + C04
